@@ -253,15 +253,58 @@ def compound_conditions(ctx):
             later = [r for r in rets if r not in plain and pops and r.lineno > pops[0].lineno]
             ctx.check(ok_pop and len(later) >= 2, 'Or.__call__#info', 'unsatisfied members are dropped before the info answers are built',
                       'Or names members that are not satisfied', f, pops[0] if pops else f.node)
+
+
+@rule('C10.f', min_instances=3)
+def members_are_stored_one_by_one(ctx):
+    """When/And/Or.__new__: on every path the tuple is built either from a list wrapped around one condition, from the caller's own *args tuple, or from a value the path has established NOT to be a compound condition (isinstance(., When) false); otherwise a compound given as the only argument is unpacked into its members (When(Or(a,b)) would test all(a,b))"""
+    import itertools
+    from .. import pathcond as PC
+    W = ctx.cls(TM + ':When')
+    for cname in ('When', 'And', 'Or'):
+        cls = ctx.cls(TM + ':' + cname)
         new = cls.methods.get('__new__')
-        ctx.need(new is not None, '%s.__new__ vanished' % cls.name)
-        r = [s for s in new.node.body if isinstance(s, ast.Return)]
-        ctx.check(bool(r) and ''.join(unparse(r[-1].value).split()) in ('tuple.__new__(self,arg)', 'tuple.__new__(self,args)'), cls.name + '.__new__',
-                  'stores every argument', '%s.__new__ no longer stores all given conditions' % cls.name, new, r[-1] if r else new.node)
-    newA = A.methods.get('__new__')
-    r = [s for s in newA.node.body if isinstance(s, ast.Return)]
-    ctx.check(bool(r) and ''.join(unparse(r[-1].value).split()) == 'tuple.__new__(self,args)', 'And.__new__', 'stores every argument',
-              'And.__new__ no longer stores all given conditions', newA, r[-1] if r else newA.node)
+        ctx.need(new is not None, '%s.__new__ vanished' % cname)
+        ctx.touch(new)
+        vararg = new.node.args.vararg.arg if new.node.args.vararg else None
+        rts = return_terms(new.node)
+        ctx.need(rts, '%s.__new__: no return' % cname)
+        ctx.stats['paths_enumerated'] += len(rts)
+        bad = None
+        for p, term, b, conds in rts:
+            ctx.need(term[0] == 'call' and T.show(term[1]) == 'tuple.__new__' and len(term[2]) == 2, '%s.__new__ returns %s' % (cname, T.show(term)[:60]))
+            v = term[2][1]
+            if v[0] in ('list', 'tuple'):
+                # wrapped: each element is stored as one member
+                continue
+            if vararg is not None and v == ('name', vararg):
+                continue     # the caller's own argument tuple: a plain tuple by the language, one member per argument
+            # v is spliced: the path must know that v is not a compound condition
+            isw = ('call', ('name', 'isinstance'), (v, ('name', 'When')), ())
+            lits = [(c if truth else ('not', c)) for c, truth, _ in conds]
+            atoms = []
+            for l in lits:
+                for a in PC.leaves(l):
+                    if a not in atoms:
+                        atoms.append(a)
+            ctx.need(len(atoms) <= 12, '%s.__new__: too many atoms' % cname)
+            if isw not in atoms:
+                bad = (p, v)
+                break
+            sat_with_compound = False
+            for bits in itertools.product((False, True), repeat=len(atoms)):
+                val = dict(zip(atoms, bits))
+                ctx.stats['truth_table_rows'] += 1
+                if val[isw] and all(PC.ev(l, val) for l in lits):
+                    sat_with_compound = True
+                    break
+            if sat_with_compound:
+                bad = (p, v)
+                break
+        ctx.check(bad is None, cname + '.__new__', 'on all %d paths members are stored one by one (a compound argument is never unpacked)' % len(rts),
+                  '%s.__new__ can build its tuple from %s without having excluded that it is a compound condition: a compound given as the only '
+                  'argument is unpacked into its members (path %s)' % (cname, T.show(bad[1])[:40] if bad else '', bad[0].describe(6) if bad else ''),
+                  new, bad[0].exit_node if bad else new.node, statement='%s.__new__ splices a possibly compound argument' % cname)
 
 
 @rule('C10.d', min_instances=5)
@@ -278,3 +321,80 @@ def collapse_conditions_message(ctx):
         ok_msg = len(rets) == 1 and ''.join(unparse(rets[0].value).split()) == "info(doc+'at%s'%str(collapsed))"
         ctx.check(ok_call and ok_msg, name, "detector %s(inst._stepmon, **kwds); message doc + ' at ' + str(collapse)" % det[name],
                   '%s no longer calls its own detector with its own keywords / reports doc + " at " + collapse' % name, inner, rets[0] if rets else inner.node)
+
+
+# captured locals that are not settings (with the reason they are exempt from C10.g)
+NOT_SETTINGS = {'doc': 'the state string (C10.a)', 'kwds': 'the keyword dictionary (C10.a / C10.d)', '_kwds': 'the keyword dictionary (C10.a)',
+                'timer': 'the clock TimeLimits reads (not decided)', 'start': 'the start time of TimeLimits (not decided)', 'delta': 'TimeLimits converts a timedelta to seconds (clock, not decided)', 'time': 'module'}
+
+
+@rule('C10.g', min_instances=17)
+def settings_reach_the_predicate_unchanged(ctx):
+    """every setting the inner predicate reads is the factory's own parameter, never reassigned on the way; the only normalisation allowed is `None -> default constant` (EvaluationLimits: no limit = inf): on each path of the factory's prelude a captured cell holds the parameter itself, or a constant on a path that has established `parameter is None`"""
+    for name, fac, inner in _factories(ctx):
+        ctx.touch(fac)
+        params = set(fac.args()) | ({fac.node.args.kwarg.arg} if fac.node.args.kwarg else set())
+        # names the inner function reads but does not bind
+        bound = set(inner.args()) | set(x for st in stmts_of(inner.node) for x in assigned_names(st))
+        for n in walk_no_nested(inner.node):
+            if isinstance(n, (ast.Import, ast.ImportFrom)):
+                bound.update((a.asname or a.name).split('.')[0] for a in n.names)
+            elif isinstance(n, (ast.comprehension,)):
+                bound.update(x.id for x in ast.walk(n.target) if isinstance(x, ast.Name))
+            elif isinstance(n, ast.Lambda):
+                bound.update(a.arg for a in n.args.args)
+        free = set(n.id for n in ast.walk(inner.node) if isinstance(n, ast.Name) and isinstance(n.ctx, ast.Load)) - bound
+        prelude = [st for st in fac.node.body if st.lineno < inner.node.lineno and not (isinstance(st, ast.Expr) and isinstance(st.value, ast.Constant))]
+        stored = {}
+        for st in prelude:
+            for sub in [st] + [x for x in walk_no_nested(st) if isinstance(x, ast.stmt)]:
+                for nm in assigned_names(sub):
+                    stored.setdefault(nm, sub)
+        # (a) captured parameters are never reassigned
+        bad = [p for p in sorted(free & params) if p in stored]
+        ctx.check(not bad, name + '#parameters', 'captured parameters %s are never reassigned' % sorted(free & params),
+                  '%s reassigns its setting %s before the predicate reads it (%s): the condition no longer tests the documented value'
+                  % (name, bad, norm_stmt(stored[bad[0]])[:80] if bad else ''), fac, stored[bad[0]] if bad else fac.node)
+        # (b) captured locals derived from parameters: identity or None -> constant
+        cells = sorted(n for n in free if n in stored and n not in params and n not in NOT_SETTINGS)
+        if not cells:
+            continue
+        paths = enumerate_block(prelude, unroll=(0, 1))
+        ctx.stats['paths_enumerated'] += len(paths)
+        for cell in cells:
+            wrong = None
+            runs = []
+            for p in paths:
+                b, conds = symbolic_run(p)
+                v = b.env.get(cell)
+                if v is not None:
+                    v = T.simp(v)
+                    runs.append((p, list(v[1:]) if v[0] in ('list', 'tuple') else [v], [(c, tr) for c, tr, _ in conds]))
+            # the parameter each slot of the cell stands for: the one it holds on the paths that leave it alone
+            owner = {}
+            for p, elems, lits in runs:
+                for k, e in enumerate(elems):
+                    if e[0] == 'name' and e[1] in params:
+                        owner.setdefault(k, e[1])
+            for p, elems, lits in runs:
+                for k, e in enumerate(elems):
+                    if e[0] == 'name' and e[1] in params:
+                        if owner.get(k) != e[1]:
+                            wrong = (p, e, 'the cell holds different settings on different paths')
+                        continue
+                    used = [x for x in T.subterms(e) if isinstance(x, tuple) and len(x) == 2 and x[0] == 'name' and x[1] in params]
+                    if used:
+                        wrong = (p, e, 'the setting is transformed')
+                        break
+                    own = owner.get(k)
+                    if own is None:
+                        continue      # a constant on every path: not a setting at all
+                    isnone = ('cmp', 'is', ('name', own), ('const', None))
+                    if (isnone, True) not in lits:
+                        wrong = (p, e, 'a constant replaces the setting %s on a path that has not established `%s is None`' % (own, own))
+                        break
+                if wrong:
+                    break
+            ctx.check(wrong is None, '%s#%s' % (name, cell), '%s holds the parameter itself, or the default only where the parameter is None' % cell,
+                      '%s: captured value %s = %s - %s (a legal setting such as 0 would be replaced)' % (
+                          name, cell, T.show(wrong[1])[:60] if wrong else '', wrong[2] if wrong else ''), fac, stored[cell])
